@@ -14,17 +14,32 @@ async fn verif_native_drop_aborts_all_bounded() {
         let mut handlers = vec![];
         for (i, id) in ids.iter().enumerate() {
             if mask & (1 << i) != 0 {
-                let reg = t.start_request(*id, Instant::now() + std::time::Duration::from_secs(10), Span::none()).unwrap();
+                let reg = t
+                    .start_request(
+                        *id,
+                        Instant::now() + std::time::Duration::from_secs(10),
+                        Span::none(),
+                    )
+                    .unwrap();
                 handlers.push(Box::pin(Abortable::new(pending::<()>(), reg)));
             }
         }
         for h in handlers.iter_mut() {
-            assert!(h.poll_unpin(&mut noop_context()).is_pending(), "handler running before the drop");
+            assert!(
+                h.poll_unpin(&mut noop_context()).is_pending(),
+                "handler running before the drop"
+            );
         }
         drop(t);
         evaluations += 1;
         for h in handlers.iter_mut() {
-            assert!(matches!(h.poll_unpin(&mut noop_context()), std::task::Poll::Ready(Err(_))), "C09: every still-running handler is aborted when the table is dropped");
+            assert!(
+                matches!(
+                    h.poll_unpin(&mut noop_context()),
+                    std::task::Poll::Ready(Err(_))
+                ),
+                "C09: every still-running handler is aborted when the table is dropped"
+            );
         }
     }
     println!("VERIF-BOUNDED drop_aborts evaluations={evaluations} bound=tables of <=3 entries");
